@@ -670,7 +670,18 @@ class Check(PropertyCheck):
     B64ALPHA = b"ABCDEFGHIJKLMNOPQRSTUVWXYZabcdefghijklmnopqrstuvwxyz0123456789+/"
 
     def gen_unit_case(self, rng):
-        k = rng.weighted([(5, "b64"), (2, "b2a"), (2, "enc"), (1, "mkauth")])
+        k = rng.weighted([(5, "b64"), (2, "b2a"), (2, "enc"), (1, "mkauth"), (6, "dec")])
+        if k == "dec":
+            # bytes.decode("utf8", "replace"): well-formed text damaged by truncation / insertion, boundary lead and
+            # continuation bytes (overlong E0/F0 forms, encoded surrogates ED A0.., > U+10FFFF F4 90.., C0/C1/F5..FF)
+            alpha = [b"a", "é".encode(), "€".encode(), "𝄞".encode(), b"\xed\x9f\xbf", b"\xed\xa0\x80", b"\xe0\x9f\xbf", b"\xe0\xa0\x80",
+                     b"\xf0\x8f\xbf\xbf", b"\xf0\x90\x80\x80", b"\xf4\x8f\xbf\xbf", b"\xf4\x90\x80\x80", b"\xc0\x80", b"\xc1\xbf", b"\xc2\x80",
+                     b"\xdf\xbf", b"\xef\xbf\xbd", b"\xf5\x80", b"\xff", b"\x80", b"\xbf", b"\x7f", b"\x00"]
+            d = bytearray(b"".join(rng.pick(alpha) for _ in range(rng.randint(0, 5))))
+            for _ in range(rng.weighted([(3, 0), (3, 1), (2, 2)])):
+                if d and rng.chance(0.5): del d[rng.randrange(len(d))]
+                else: d.insert(rng.randint(0, len(d)), rng.pick([0x80, 0xBF, 0xC2, 0xE0, 0xED, 0xF0, 0xF4, 0x41, rng.getrandbits(8)]))
+            return {"op": "dec", "data_hex": hx(bytes(d))}
         if k == "b64":
             n = rng.randint(0, 14)
             d = bytearray(rng.pick(self.B64ALPHA) for _ in range(n))
@@ -703,6 +714,7 @@ class Check(PropertyCheck):
             try: return {"unit": "ok " + hx(binascii.a2b_base64(unhx(case["data_hex"])))}
             except binascii.Error: return {"unit": "err"}
         if op == "b2a": return {"unit": hx(binascii.b2a_base64(unhx(case["data_hex"]), newline=False))}
+        if op == "dec": return {"unit": cps(unhx(case["data_hex"]).decode("utf8", "replace"))}
         if op == "enc": return {"unit": hx(case["text"].encode("utf-8"))}
         if op == "mkauth": return {"unit": cps(proxyauth.mkauth(case["u"], case["p"]))}
         if op == "resp":
@@ -880,7 +892,7 @@ class Check(PropertyCheck):
 
     # ------------------------------------------------------------------ property oracle (needs no model)
     def oracle(self, case, obs):
-        if case["op"] in ("parse", "b64", "b2a", "enc", "mkauth", "resp"): return []
+        if case["op"] in ("parse", "b64", "b2a", "dec", "enc", "mkauth", "resp"): return []
         val = case["val"]
         fails = []
         if case["op"] == "hook":
@@ -1025,7 +1037,7 @@ class Check(PropertyCheck):
     def model_lines(self, case):
         if case.get("upauth"): return None
         op = case["op"]
-        if op in ("b64", "b2a"): return [f"{op} {case['data_hex']}"]
+        if op in ("b64", "b2a", "dec"): return [f"{op} {case['data_hex']}"]
         if op == "enc": return [f"enc {cps(case['text'])}"]
         if op == "mkauth": return [f"mkauth {cps(case['u'])} {cps(case['p'])}"]
         if op == "resp": return [f"resp {1 if case['proxy'] else 0}"]
@@ -1052,7 +1064,7 @@ class Check(PropertyCheck):
         return page_digest(int(st), m.group(1) if m else b"?", unhx(name), unhx(value), body)
 
     def model_obs(self, case, replies):
-        if case["op"] in ("b64", "b2a", "enc", "mkauth", "resp") or len(replies) == 1: return replies[0]
+        if case["op"] in ("b64", "b2a", "dec", "enc", "mkauth", "resp") or len(replies) == 1: return replies[0]
         pages = {"407": self.model_page(replies[1]), "401": self.model_page(replies[2])}
         toks = []
         for t in replies[0].split(" "):
